@@ -1089,6 +1089,24 @@ def mk_call(fn, args=(), kwargs=()):
             return mk_or([mk_call('isinstance', [args[0], c]) for c in ca.args])
         if ca is not None and ca.kind == 'tuple' and len(ca.args) == 1:
             args = [args[0], ca.args[0]]
+    def _prop(t_):
+        a_ = t_.single_atom() if isinstance(t_, Term) else None
+        return isinstance(t_, Term) and (t_.key in (TRUE.key, FALSE.key) or (a_ is not None and a_.kind in ('cmp', 'not', 'and')))
+    if fn in ('binBitAnd', 'binBitOr', 'logical_and', 'logical_or') and len(args) == 2 and not kwargs and all(_prop(x) for x in args):
+        # element-wise & / | of two propositions
+        return mk_and(list(args)) if fn in ('binBitAnd', 'logical_and') else mk_or(list(args))
+    if fn == 'where' and (len(args) == 3 and not kwargs or (len(args) == 1 and set(dict(kwargs)) == {'x', 'y'})):
+        # np.where(c, x, y): element-wise conditional
+        x_, y_ = (args[1], args[2]) if len(args) == 3 else (dict(kwargs)['x'], dict(kwargs)['y'])
+        if _prop(args[0]) or (args[0].single_atom() is not None and args[0].single_atom().kind == 'ite'):
+            return mk_ite(args[0], x_, y_)
+    if fn == 'bool' and len(args) == 1 and not kwargs and isinstance(args[0], Term):
+        # bool(p) of a truth value / proposition is p; of a number, its non-zero test
+        if args[0].key in (TRUE.key, FALSE.key) or _boolean(args[0]) or (
+                args[0].single_atom() is not None and args[0].single_atom().kind == 'cmp'):
+            return args[0]
+        if args[0].const() is not None:
+            return TRUE if args[0].const() != 0 else FALSE
     if fn in ('multiply', 'add', 'subtract', 'divide', 'true_divide') and len(args) == 2 and not kwargs and \
             all(isinstance(x, Term) for x in args):
         # the numpy ufunc spelling of an arithmetic operator
